@@ -748,8 +748,12 @@ func (ci *corrInfo) evalVal(v ssa.Value, st *pathFacts, depth int) evalRes {
 			if b, known := ci.evalCond(x.X, st, depth+1); known {
 				return evalRes{kind: 1, val: constant.MakeBool(!b)}
 			}
+			return evalRes{}
 		}
-		return evalRes{}
+		if x.Op != token.MUL {
+			return evalRes{}
+		}
+		// a load: what is known about the loaded value (below)
 	case *ssa.BinOp:
 		if b, known := ci.evalCond(v, st, depth+1); known {
 			return evalRes{kind: 1, val: constant.MakeBool(b)}
@@ -971,6 +975,30 @@ func (ci *corrInfo) leafOn(v ssa.Value, st *pathFacts) ssa.Value {
 		break
 	}
 	return v
+}
+
+// valuesAlongQ is valuesAlong with the restrictions of q applied to the part of the path after the edge.
+func valuesAlongQ(f *ssa.Function, e ifEdge, at ssa.Instruction, v ssa.Value, q PathQ) (vals []ssa.Value, reached bool) {
+	ci := corrOf(f)
+	seen := map[ssa.Value]bool{}
+	q2 := q
+	q2.MustEdge = &e
+	canReachFrom(f, nil, nil, -1, func(in ssa.Instruction) bool {
+		if in != at {
+			return false
+		}
+		reached = true
+		r := v
+		if ci.cur != nil {
+			r = ci.leafOn(v, ci.cur)
+		}
+		if !seen[r] {
+			seen[r] = true
+			vals = append(vals, r)
+		}
+		return false
+	}, q2)
+	return vals, reached
 }
 
 // valuesAt: the values v denotes at instruction `at` over all feasible paths from the function's entry, each followed through
